@@ -139,6 +139,8 @@ pub fn cmd_sweep(args: &[String]) -> i32 {
     let prop = arg(args, "--prop").unwrap_or("C08").to_string();
     let out_dir = arg(args, "--out").unwrap_or("/tmp/tzsim-out").to_string();
     let worker: usize = arg(args, "--worker").and_then(|s| s.parse().ok()).unwrap_or(0);
+    // distinguishes the output files of the same sweep run under another build profile
+    let tag = arg(args, "--tag").unwrap_or("").to_string();
     let of: usize = arg(args, "--of").and_then(|s| s.parse().ok()).unwrap_or(1);
     let permille: u64 = arg(args, "--sample-permille").and_then(|s| s.parse().ok()).unwrap_or(1000);
     let seed: u64 = arg(args, "--seed").and_then(|s| s.parse().ok()).unwrap_or(1);
@@ -147,7 +149,7 @@ pub fn cmd_sweep(args: &[String]) -> i32 {
     let emit: Option<u64> = arg(args, "--emit-crumb").and_then(|s| s.parse().ok());
     let _ = std::fs::create_dir_all(&out_dir);
     if emit.is_none() {
-        crate::crumb::init(&format!("{out_dir}/crumb-{kind_arg}-{worker}"));
+        crate::crumb::init(&format!("{out_dir}/crumb-{kind_arg}-{tag}{worker}"));
     }
     let root = std::env::var("TZSIM_CORPUS").unwrap_or_else(|_| "/verif/corpus".to_string());
     let t0 = Instant::now();
@@ -421,6 +423,52 @@ pub fn cmd_sweep(args: &[String]) -> i32 {
                     }
                     buf[pos] = orig;
                 }
+                // the version octets take every value: one at a time and both together (a reader that grows
+                // support for another version must still treat every file like the reference decoder does)
+                let p1 = 4usize;
+                let p2 = raw.second.as_ref().map(|_| 44 + raw.b1.times.len() + raw.b1.idx.len() + raw.b1.ttinfo.len() + raw.b1.chars.len() + raw.b1.leaps.len() + raw.b1.isstd.len() + raw.b1.isut.len() + 4).filter(|p| *p < bytes.len() && bytes.get(p.wrapping_sub(4)..*p) == Some(&b"TZif"[..]));
+                for v in 0..=255u8 {
+                    for which in 0..3 {
+                        let mut hit = false;
+                        if which != 1 && bytes[p1] != v {
+                            buf[p1] = v;
+                            hit = true;
+                        }
+                        if let (true, Some(p2)) = (which != 0, p2) {
+                            if bytes[p2] != v {
+                                buf[p2] = v;
+                                hit = true;
+                            }
+                        }
+                        if hit && (which == 0 || p2.is_some()) {
+                            crate::crumb::set(wi as u64 * 1_000_000_000 + p1 as u64 * 4);
+                            evaluations += 1;
+                            digests.push(fnv(&[v, which as u8, 0x56]) ^ fnv(label.as_bytes()).rotate_left(7));
+                            bump(&mut counters, "version_octet_value");
+                            match decode(&buf) {
+                                Ok(Err(_)) => {}
+                                Ok(Ok(z)) => {
+                                    accepted += 1;
+                                    let mut fu = false;
+                                    if let Err(m) = ref_matches(&z, &buf, &mut fu) {
+                                        if found.iter().filter(|f| f.oracle == "C08.reference_decoder").count() < 3 {
+                                            found.push(Found { oracle: "C08.reference_decoder".into(), sig: "disagrees-with-reference".into(), detail: format!("{label}: version octet(s) set to {v:#04x} (variant {which}): {m}"), scenario: scenario_for(Content::Hex(buf.clone()), None, &prop) });
+                                        }
+                                    }
+                                }
+                                Err(p) => {
+                                    if found.iter().filter(|f| f.oracle == "C07.panic").count() < 3 {
+                                        found.push(Found { oracle: "C07.panic".into(), sig: "panic".into(), detail: format!("{label}: version octet(s) set to {v:#04x} (variant {which}) panicked: {p}"), scenario: scenario_for(Content::Hex(buf.clone()), None, &prop) });
+                                    }
+                                }
+                            }
+                        }
+                        buf[p1] = bytes[p1];
+                        if let Some(p2) = p2 {
+                            buf[p2] = bytes[p2];
+                        }
+                    }
+                }
                 *counters.entry("single_byte_corruption_accepted".to_string()).or_insert(0) += accepted;
                 if samples.len() < 3 {
                     samples.push(format!("{label}: {} bytes x 4 replacement values, {accepted} corrupted files still accepted (and equal to the reference decoder's reading)", bytes.len()));
@@ -494,7 +542,7 @@ pub fn cmd_sweep(args: &[String]) -> i32 {
         let chk = crate::exec::execute(&f.scenario, &mut corpus, a, &crate::exec::ExecOpts::default());
         let confirmed = chk.violations.iter().any(|v| v.oracle == f.oracle || (f.oracle == "C08.ignorable"));
         if confirmed || f.oracle == "C08.ignorable" {
-            let path = crate::write_replay(&replay_dir, &format!("{prop}-sweep-{kind}-{worker}-{n}"), &f.scenario, &f.oracle, &f.sig, &f.detail, &mut corpus, a);
+            let path = crate::write_replay(&replay_dir, &format!("{prop}-sweep-{kind_arg}-{tag}{worker}-{n}"), &f.scenario, &f.oracle, &f.sig, &f.detail, &mut corpus, a);
             out_found.push((f.oracle.clone(), f.sig.clone(), f.detail.clone(), path));
         } else {
             out_found.push(("HARNESS.unconfirmed".into(), f.sig.clone(), format!("sweep finding did not reproduce through the executor: {}", f.detail), String::new()));
@@ -505,7 +553,7 @@ pub fn cmd_sweep(args: &[String]) -> i32 {
     for d in &digests {
         bin.extend_from_slice(&d.to_le_bytes());
     }
-    let _ = std::fs::write(format!("{out_dir}/nontrivial-{kind_arg}-{worker}.bin"), bin);
+    let _ = std::fs::write(format!("{out_dir}/nontrivial-{kind_arg}-{tag}{worker}.bin"), bin);
     let mut j = String::from("{");
     j.push_str(&format!("\"worker\":{worker},\"kind\":{},\"evaluations\":{evaluations},\"files\":{},\"wall_s\":{:.3},", crate::jstr(kind_arg), work.len(), t0.elapsed().as_secs_f64()));
     j.push_str("\"probes\":{");
@@ -534,7 +582,7 @@ pub fn cmd_sweep(args: &[String]) -> i32 {
     j.push_str("],\"samples\":[");
     j.push_str(&samples.iter().map(|s| crate::jstr(s)).collect::<Vec<_>>().join(","));
     j.push_str("]}");
-    let _ = std::fs::write(format!("{out_dir}/stats-{kind_arg}-{worker}.json"), j);
+    let _ = std::fs::write(format!("{out_dir}/stats-{kind_arg}-{tag}{worker}.json"), j);
     0
 }
 
